@@ -419,7 +419,23 @@ func lookup(v reflect.Value, name string) (interface{}, error) {
 	}
 
 	if seq, ok := asSequence(res); ok {
-		res = seq.Value()
+		// The values found in an array of objects are combined
+		// as they are by the path v.name: when there are several,
+		// an array-valued member contributes its items.
+		flat := newSequence(seq.Len())
+		for _, item := range seq.values {
+			if iv := reflect.ValueOf(item); seq.Len() > 1 && jtypes.IsArray(iv) {
+				iv = arrayify(iv)
+				for i, N := 0, iv.Len(); i < N; i++ {
+					if vi := iv.Index(i); vi.IsValid() && vi.CanInterface() {
+						flat.Append(vi.Interface())
+					}
+				}
+				continue
+			}
+			flat.Append(item)
+		}
+		res = flat.Value()
 	}
 
 	if res.IsValid() && res.CanInterface() {
